@@ -64,3 +64,10 @@ CHECKS["C02"] = dict(
     design_ref="DESIGN.md 3 C02",
     note="Definition lists (; :), fillers with markup and headings inside HTML/tables are outside; assumes the begline representation invariant; replays go through Wtp.parse against an independent reference builder.",
 )
+CHECKS["C15"] = dict(
+    engine="E1 CrossHair; E3 AST path encoder + z3",
+    technique="CrossHair symbolic execution of nowiki_quote / preprocess_text / _finalize_expand / magic_fn on documents with pinned tags and symbolic content; z3 path queries over the expander's cookie loops",
+    text="For every content string up to the bound (every markup character at every position): quoting leaves no markup outside entities and decodes back; <nowiki>c</nowiki> becomes exactly one N cookie holding c verbatim which finalisation renders quoted; the parse-side handler only adds the quoted text whatever the line-start state; a closed comment and the newline before it vanish. On every syntactic path of the expander's two cookie loops the N branch only re-emits the cookie.",
+    design_ref="DESIGN.md 3 C15",
+    note="Embedding in arguments/links/cells through the whole pipeline is covered only by the path query and the replay catalogue; rev_ht stubbed by an association list; content bound is small (per-character behaviour).",
+)
